@@ -119,11 +119,17 @@ func ParseSimple(dsn string, target interface{}) error {
 		// If the value starts with a quotation mark consume more parts
 		// until the quotation is finished.
 		for _, quot := range quotations {
-			if !strings.Contains(part, "="+string(quot)) {
+			start := strings.Index(part, "="+string(quot))
+			if start < 0 {
 				continue
 			}
 
-			for part[len(part)-1] != quot {
+			// The value is complete once it holds a closing quotation
+			// mark in addition to the opening one.
+			for len(part) < start+3 || part[len(part)-1] != quot {
+				if len(dsnS) == 0 {
+					return fmt.Errorf("dsn: quotation is not terminated: %q", part)
+				}
 				part = strings.Join([]string{part, dsnS[0]}, " ")
 				dsnS = dsnS[1:]
 			}
@@ -138,11 +144,10 @@ func ParseSimple(dsn string, target interface{}) error {
 		key, value := partS[0], partS[1]
 
 		// Remove quotation from value
-		if value != "" {
-			for _, quot := range quotations {
-				if value[0] == quot && value[len(value)-1] == quot {
-					value = value[1 : len(value)-1]
-				}
+		for _, quot := range quotations {
+			if len(value) >= 2 && value[0] == quot && value[len(value)-1] == quot {
+				value = value[1 : len(value)-1]
+				break
 			}
 		}
 
